@@ -529,18 +529,7 @@ func runHosts(c *wk.Ctx) {
 		c.Begin(idx, "hosts-history", nil)
 		c.Eval()
 		hr := &hostsRun{c: c, idx: idx, ops: ops, cfg: cfg, compare: true, states: states, trans: trans}
-		func() {
-			defer func() {
-				if r := recover(); r != nil {
-					pi := wk.Capture(r)
-					if strings.Contains(pi.Value, "HARNESS BUG") {
-						panic(r)
-					}
-					c.ViolP("C09", "bubble:"+strings.SplitN(pi.Value, ":", 2)[0], pi.Value, map[string]any{"index": idx})
-				}
-			}()
-			synctest.Test(theT, func(t *testing.T) { hr.history() })
-		}()
+		runBubble(c, idx, func() { hr.history() })
 		if hr.changed && !hr.viol {
 			c.Class(kind + ":" + histShape(ops))
 		}
@@ -633,17 +622,6 @@ func runHostsTx(c *wk.Ctx) {
 		c.Begin(idx, "hosts-history(tx)", nil)
 		c.Eval()
 		hr := &hostsRun{c: c, idx: idx, ops: ops, cfg: cfg, compare: true, states: states, trans: trans, tx: true}
-		func() {
-			defer func() {
-				if rec := recover(); rec != nil {
-					pi := wk.Capture(rec)
-					if strings.Contains(pi.Value, "HARNESS BUG") {
-						panic(rec)
-					}
-					c.ViolP("C09", "bubble:"+strings.SplitN(pi.Value, ":", 2)[0], pi.Value, map[string]any{"index": idx})
-				}
-			}()
-			synctest.Test(theT, func(t *testing.T) { hr.history() })
-		}()
+		runBubble(c, idx, func() { hr.history() })
 	}
 }
